@@ -243,7 +243,7 @@ func init() {
 	register(&propertySpec{
 		ID:      "C10",
 		Explain: "Static gate / pairing rules for the rule lifecycle: every Location entry refuses on the disabled edge before touching state (GATE-E), dispatch appends a rule only behind RuleEnabled == true (DISP-ENABLED), re-adding or removing an id drops the cached parse (CACHE-INV), and RemRule removes the disabled flag (REM-FLAG). Does not decide the state machine over histories, reload survival or inherited disablement.",
-		Rules:   []ruleFn{ruleGateE, ruleDispEnabled, ruleCacheInv, ruleRemFlag, ruleDeleteWithProvenance, ruleIdxRem},
+		Rules:   []ruleFn{ruleGateE, ruleDispEnabled, ruleCacheInv, ruleRemFlag, ruleDeleteWithProvenance, ruleIdxRem, ruleStoreBeforeMem("C10"), ruleGateFire},
 	})
 }
 
@@ -257,10 +257,28 @@ func ruleIdSetAtCreation(w *World) bool {
 		if fn == nil {
 			return false
 		}
+		// the store of the key into Rule.Id dominates the publication of the rule in the cache (an assignment that is
+		// made only `if rule.Id == ""` keeps an id the rule's body brought along)
 		ok := false
+		var pubs []ssa.Instruction
+		allInstrs(fn, func(in ssa.Instruction) {
+			if mu, isMU := in.(*ssa.MapUpdate); isMU {
+				if nm2, f2, _, isF := loadedField(mu.Map); isF && f2 == "cachedRules" && typeKey(nm2) == typeKey(nm) {
+					pubs = append(pubs, in)
+				}
+			}
+		})
 		allInstrs(fn, func(in ssa.Instruction) {
 			if _, is := storesToField(in, "core.Rule", "Id"); is {
-				ok = true
+				all := len(pubs) > 0
+				for _, p := range pubs {
+					if !instrDominates(in, p) {
+						all = false
+					}
+				}
+				if all {
+					ok = true
+				}
 			}
 		})
 		if !ok {
